@@ -912,6 +912,12 @@ def build_source(table):
     fields = [{'name': n, 'type': t} for n, t in table['fields']]
     if table.get('kind') == 'iter':
         return [dict(r) for r in copy.deepcopy(table['rows'])]
+    if table.get('kind') == 'csv':
+        # the most common source: a CSV file loaded with load()'s defaults (schema inferred, cells NOT cast)
+        path = table['name'] + '.csv'
+        with open(path, 'w', newline='', encoding='utf-8') as f:
+            f.write(table['csv_text'])
+        return lab.df().load(path, name=table['name'])
     return lab.source(table['name'], fields, table['rows'])
 
 
